@@ -34,6 +34,18 @@ def c17_never():
     return lambda res: (False, 'no native replay is defined for the entry-point accounting obligation (a counterexample is reported as inconclusive)')
 
 
+@expectation('c17_late')
+def c17_late():
+    def f(res):
+        for r in res:
+            if 'error' in r or 'panic' in r:
+                return False, 'native: %r' % (r,)
+            if r.get('admitted'):
+                return True, 'native: with admin_only set (shutdown begun) a new non-admin client (%s) was admitted: %r' % (r.get('scenario'), r)
+        return False, 'native: late clients are refused on every connection path: %r' % (res,)
+    return f
+
+
 def o2_entrypoint(chk, prog):
     """client_entrypoint from MIR: whatever the first packet is (startup / SSL request without TLS configured / cancel request / junk) and
     however startup and the session end, the drain channel -- the count main() waits on to exit "once all clients have left" -- gets
@@ -59,7 +71,17 @@ def o2_entrypoint(chk, prog):
         st = StreamV(pkt(code) + pkt(code2), 'tcp')
         client = mk_client(ip_, prog, admin=ip_.fresh(1, 'is_admin'))
 
+        admin_only = ip_.fresh(1, 'admin_only')
+        log_conns = ip_.fresh(1, 'log_client_connections')
+
         def start(c, *a):
+            # whichever way the client connected (plain, TLS, plain after a declined SSL request) the shutdown state of the accept loop
+            # -- admin_only -- is what the startup code is told (Client::startup / startup_tls take it as their last argument)
+            if not c.callee.endswith('cancel'):
+                flags['startups'] = flags.get('startups', 0) + 1
+                got = a[-1]
+                if not isinstance(got, BV) or got.w != 1 or ip_.is_sat(got.z() != admin_only.z()):
+                    flags['admin_only_lost'] = c.callee
             if ip_.choose(2, 'startup_ok') == 1:
                 flags['admitted'] = True
                 return Opaque('HookFuture', 'ready', ok(ip_, client))
@@ -94,7 +116,7 @@ def o2_entrypoint(chk, prog):
         ip_.poll_hook = poll_hook
         csm = Ptr(Cell(Agg([MapV('hashmap')], 'Lock'), 'csmap'))
         try:
-            r = ip_.drive(ip_.call_function(f, [st, csm, Opaque('Receiver', 'shutdown'), Ptr(Cell(Opaque('Sender', 'drain'), 'drain')), BV(1, 0), none(ip_), BV(1, 0)]))
+            r = ip_.drive(ip_.call_function(f, [st, csm, Opaque('Receiver', 'shutdown'), Ptr(Cell(Opaque('Sender', 'drain'), 'drain')), admin_only, none(ip_), log_conns]))
         except Panic as p:
             raise Inconclusive('client_entrypoint panic: ' + p.msg)
         ob.nontrivial += 1
@@ -114,6 +136,11 @@ def o2_entrypoint(chk, prog):
             rep('drain-not-counted', 'a non-admin client was admitted without being counted')
         elif (not flags.get('admitted') or is_admin) and vals:
             rep('drain-counted-wrongly', 'the drain channel is used for a client that is admin or was never admitted')
+        if flags.get('admin_only_lost'):
+            chk.report(ob, 'C17/O2/admin-only-not-passed', 'client_entrypoint starts a client (%s) with an admin_only flag that is not the one the accept loop passed: '
+                       'while shutting down, a new non-admin client connecting this way would be admitted' % flags['admin_only_lost'],
+                       {'first_code': str(ip_.model_for().eval(code.z(), True)), 'second_code': str(ip_.model_for().eval(code2.z(), True))},
+                       {'commands': [{'op': 'entrypoint_drain', 'scenario': 'late_ssl_declined'}, {'op': 'entrypoint_drain', 'scenario': 'late_plain'}], 'expect': ['c17_late']})
         if flags.get('result_err') and not flags.get('disconnects'):
             chk.report(ob, 'C18/O2/err-session-not-unregistered', 'a session that ended in error is not removed from the statistics by the entry point', {}, {'commands': [], 'expect': ['c17_never']})
         if len(ob.samples) < 3:
